@@ -183,6 +183,13 @@ CHECKS = {
             "ShellCommandRequirement with shellQuote, EnvVarRequirement values, stdin redirection; run by StreamFlow's cwl-runner and "
             "by cwltool; oracle: both fail or identical printed vectors.",
             "1-3 bound inputs per tool (the property speaks of 1..6); cwltool is the reference; local connector only.", "3/C30"),
+    "C34": ("exploration", "E3", E3 + "; structural validation of the exported crate for every generated run",
+            "Generated CWL workflows of the C29 grammar executed by `streamflow run` on a file database and exported by `streamflow "
+            "prov`: readable zip, JSON-LD with unique @id, every local reference resolves, every File entity present with its "
+            "recorded sha1/size, one CreateAction for the main workflow, every workflow input/output has a FormalParameter and a "
+            "connected value entity whose leaves equal the run's values.",
+            "Same small program grammar as C29; values compared as multisets of leaf strings; references to web resources need not resolve.",
+            "3/C34"),
 }
 
 NOT_YET = "check not built yet in this session (planned, see DESIGN.md section 3); no claim is made"
